@@ -12,6 +12,7 @@ import (
 	"io"
 	"strconv"
 	"strings"
+	"unsafe"
 
 	fatchoy "qchen.fun/fatchoy"
 	"qchen.fun/fatchoy/codec"
@@ -200,7 +201,19 @@ type Pkt struct {
 	Flag uint8    `json:"flag"`
 	Node uint32   `json:"node"`
 	Refs []uint32 `json:"refs"`
-	Body string   `json:"body"` // nil | b:SPEC | i:<int64>
+	Body string   `json:"body"`          // nil | b:SPEC | i:<int64>
+	Off  int      `json:"off,omitempty"` // search legs: a byte body is handed over as a sub-slice whose address is Off mod 16
+}
+
+// AtOffset returns a copy of b whose first byte sits at an address that is off modulo 16
+// (a sub-slice of a larger array: what a caller who cuts a body out of a receive buffer hands over).
+func AtOffset(b []byte, off int) []byte {
+	back := make([]byte, len(b)+32)
+	base := int(uintptr(unsafe.Pointer(&back[0])) % 16)
+	skip := ((off-base)%16 + 16) % 16
+	out := back[skip : skip+len(b) : skip+len(b)]
+	copy(out, b)
+	return out
 }
 
 func Encoder(v, thr int) codec.Encoder {
@@ -228,7 +241,11 @@ func (d *Pkt) Build() *packet.Packet {
 	switch {
 	case d.Body == "nil":
 	case strings.HasPrefix(d.Body, "b:"):
-		p.SetBody(Expand(d.Body[2:]))
+		if d.Off != 0 {
+			p.SetBody(AtOffset(Expand(d.Body[2:]), d.Off))
+		} else {
+			p.SetBody(Expand(d.Body[2:]))
+		}
 	case strings.HasPrefix(d.Body, "i:"):
 		v, err := strconv.ParseInt(d.Body[2:], 10, 64)
 		if err != nil {
@@ -362,17 +379,22 @@ func EncLine(d *Pkt, o *EncObs) (op, impl string) {
 
 // Reader serves a byte string in chunks and records the size of every io.ReadFull.
 type Reader struct {
-	Data   []byte
-	Pos    int
-	bounds []int // chunk ends (absolute offsets), ascending; implicit final bound len(Data)
-	Reqs   []int // size of every ReadFull (reconstructed: a Read with nothing outstanding starts one)
-	out    int
-	MaxReq int
+	Data        []byte
+	Pos         int
+	bounds      []int // chunk ends (absolute offsets), ascending; implicit final bound len(Data)
+	Reqs        []int // size of every ReadFull (reconstructed: a Read with nothing outstanding starts one)
+	out         int
+	MaxReq      int
+	eofTogether bool // the read that delivers the last byte returns io.EOF with it (legal for an io.Reader)
 }
 
-// NewReader: ck = "all" | "n:<k>" | "l:<sizes>".
+// NewReader: ck = "all" | "n:<k>" | "l:<sizes>" | "e:<k>" (as n:<k>; the read delivering the last byte also returns io.EOF).
 func NewReader(data []byte, ck string) *Reader {
 	r := &Reader{Data: data}
+	if strings.HasPrefix(ck, "e:") {
+		r.eofTogether = true
+		ck = "n:" + ck[2:]
+	}
 	switch {
 	case ck == "all":
 	case strings.HasPrefix(ck, "n:"):
@@ -425,6 +447,9 @@ func (r *Reader) Read(p []byte) (int, error) {
 	r.out -= n
 	if len(r.bounds) > 0 && r.bounds[0] == r.Pos {
 		r.bounds = r.bounds[1:]
+	}
+	if r.eofTogether && r.Pos == len(r.Data) {
+		return n, io.EOF
 	}
 	return n, nil
 }
@@ -512,8 +537,14 @@ func bodyText(b interface{}) string {
 // Decode runs the real reader once. split=true uses ReadHeadBody + UnmarshalPacket (as TcpConn does),
 // otherwise ReadPacket.
 func Decode(r *Reader, v int, keyHex string, split bool) DecObs {
+	return DecodeWith(Encoder(v, 0), Cryptor(keyHex), r, split, 0)
+}
+
+// DecodeWith is Decode with a caller-owned codec instance and decryptor (search legs: state kept by an
+// instance across calls is part of the history). uoff != 0 (split only): header and payload are handed
+// to UnmarshalPacket as sub-slices whose addresses are uoff modulo 16.
+func DecodeWith(enc codec.Encoder, dec cipher.BlockCryptor, r *Reader, split bool, uoff int) DecObs {
 	var o DecObs
-	enc := Encoder(v, 0)
 	pkt := packet.Make()
 	r.Reqs = nil
 	r.out = 0
@@ -524,9 +555,12 @@ func Decode(r *Reader, v int, keyHex string, split bool) DecObs {
 				o.Err = err
 				return
 			}
-			o.Err = enc.UnmarshalPacket(head, body, Cryptor(keyHex), pkt)
+			if uoff != 0 {
+				head, body = AtOffset(head, uoff), AtOffset(body, uoff)
+			}
+			o.Err = enc.UnmarshalPacket(head, body, dec, pkt)
 		} else {
-			o.Err = enc.ReadPacket(r, Cryptor(keyHex), pkt)
+			o.Err = enc.ReadPacket(r, dec, pkt)
 		}
 	})
 	o.Pkt, o.Reqs, o.Pos = pkt, append([]int{}, r.Reqs...), r.Pos
